@@ -737,7 +737,9 @@ def _parse_source_for_lambda(
         # Setup the tokenizer
         t_stream = _token_runner(source, lambda_line)
 
-        func_name, start_token = t_stream.find_identifier(["def", "lambda"])
+        # A lambda can sit on the same line as the `def` of the function around it.
+        is_lambda = getattr(ast_source, "__name__", "") == "<lambda>"
+        func_name, start_token = t_stream.find_identifier(["lambda"] if is_lambda else ["def", "lambda"])
 
         if start_token is None:
             return None
